@@ -3,8 +3,9 @@
 //! Reference model: oracle::ehlers, a batch re-evaluation from the complete input history written
 //! from the statement's formulas with closed-form coefficients.  Compared with the real code after
 //! every update, at f64 on long streams and at the exact scalar on short ones (there the zero tests
-//! of the hold branches are exact events), tolerance 1e-4 of the output's natural scale: the
-//! tightest that cannot false-alarm on constant spelling (4.4422 vs 1.414 pi, <= 3e-6 of scale).
+//! of the hold branches are exact events), tolerance 2e-5 of the output's natural scale for
+//! SuperSmoother and RoofingFilter (the tightest that cannot false-alarm on their constants'
+//! spelling, 4.4422 vs 1.414 pi: <= 4e-6 of scale) and 1e-9 for the other seven views.
 
 use super::{hash_str, mix, show_inputs};
 use crate::dynview::{build_plain, Kind, MaK, Spec};
@@ -168,7 +169,11 @@ fn run<T: Scalar>(c: &Case, xs: &[f64], out: &mut TrialOut) {
             0 | 1 | 2 | 4 => big,
             _ => e.map(|x| x.f().abs()).unwrap_or(0.0).max(1.0),
         };
-        let tol = 1e-4 * scale;
+        // SuperSmoother and RoofingFilter spell the cosine's argument 4.4422 / N where the statement
+        // has 1.414 pi / N = 4.44221201218... / N: up to 4e-6 of scale on the
+        // unchanged tree; every other view follows the statement's spelling and agrees with the
+        // batch re-evaluation to 5e-14
+        let tol = if c.vi <= 1 { 2e-5 } else { 1e-9 } * scale;
         out.cell(&cell, 1);
         let ok = match (got, e) {
             (None, None) => true,
@@ -247,7 +252,7 @@ impl Monitor for C11 {
         v
     }
     fn rule(&self) -> String {
-        "trial = (one of the nine views with its secondary parameters: gamma grid, smoother length, MA in {Ema(k), Sma(k), Echo}; N from the view's minimum to 64 plus 200 and 1000; input class incl. resonant sines and alternations, steps, spikes, flat stretches; scalar); after every update last() is compared with a batch re-evaluation of the difference equations from the complete history (coefficients from the statement's closed forms), tolerance 1e-4 of the natural scale; ratio outputs are compared in f64 only where the reference denominator is above rounding noise (counted), and at the exact scalar always. distinct = distinct (view+parameters, scalar, input hash)".into()
+        "trial = (one of the nine views with its secondary parameters: gamma grid, smoother length, MA in {Ema(k), Sma(k), Echo}; N from the view's minimum to 64 plus 200 and 1000; input class incl. resonant sines and alternations, steps, spikes, flat stretches; scalar); after every update last() is compared with a batch re-evaluation of the difference equations from the complete history (coefficients from the statement's closed forms), tolerance 2e-5 (SuperSmoother, RoofingFilter: spelled constants) resp. 1e-9 (the others) of the natural scale; ratio outputs are compared in f64 only where the reference denominator is above rounding noise (counted), and at the exact scalar always. distinct = distinct (view+parameters, scalar, input hash)".into()
     }
     fn assumptions(&self) -> Vec<String> {
         vec![
